@@ -35,6 +35,12 @@ def inject(doc, f):
     if kind == "dup_name":
         nb = copy.deepcopy(b)
         nb["annot"] = ""
+        if b["t"] == "type":
+            # the second declaration of the name need not look like the first: every notation in turn
+            alt = [None, {"k": "any", "n": "", "props": [], "allOf": []}, {"k": "empty", "n": "", "props": [], "allOf": []},
+                   {"k": "regex", "n": "", "props": [], "allOf": []}, {"k": "int", "n": "", "props": [], "allOf": []}][(i + len(d)) % 5]
+            if alt is not None:
+                nb["body"] = alt
         return d + [nb], [len(d) + 1], nb
     if kind == "dup_method":
         if b["t"] == "method":
